@@ -59,7 +59,12 @@ func loadProgram(repo, verif string, patterns []string) (*Program, error) {
 		}
 		p.pkgs[pk.PkgPath] = pk
 		if pk.Types != nil {
-			if _, dup := p.byName[pk.Types.Name()]; !dup || strings.HasPrefix(pk.PkgPath, modulePrefix) {
+			prev, dup := p.byName[pk.Types.Name()]
+			switch {
+			case !dup, strings.HasPrefix(pk.PkgPath, modulePrefix):
+				p.byName[pk.Types.Name()] = pk.Types
+			case strings.HasPrefix(prev.Path(), modulePrefix):
+			case len(pk.PkgPath) < len(prev.Path()) || (len(pk.PkgPath) == len(prev.Path()) && pk.PkgPath < prev.Path()):
 				p.byName[pk.Types.Name()] = pk.Types
 			}
 		}
@@ -97,6 +102,42 @@ func loadProgram(repo, verif string, patterns []string) (*Program, error) {
 					return nil, err
 				}
 			}
+		}
+	}
+	// every module contract must name an existing function (or function literal)
+	for _, c := range p.specs.Contracts {
+		if c.Pkg == "" {
+			continue
+		}
+		key := c.Key
+		if j := strings.LastIndex(key, "$"); j >= 0 {
+			key = key[:j]
+		}
+		found := false
+		for f, pk := range p.declPkg {
+			if pk.PkgPath == c.Pkg && funcKey(f) == key {
+				found = true
+				break
+			}
+		}
+		if !found {
+			// interface methods of module interfaces
+			if pk := p.pkgs[c.Pkg]; pk != nil {
+				if i := strings.Index(key, "."); i > 0 {
+					if tn, ok := pk.Types.Scope().Lookup(key[:i]).(*types.TypeName); ok {
+						if it, ok := tn.Type().Underlying().(*types.Interface); ok {
+							for k := 0; k < it.NumMethods(); k++ {
+								if it.Method(k).Name() == key[i+1:] {
+									found = true
+								}
+							}
+						}
+					}
+				}
+			}
+		}
+		if !found {
+			return nil, ContractError{fmt.Sprintf("%s:%d: contract for %q does not match any function of package %s", c.File, c.Line, c.Key, c.Pkg)}
 		}
 	}
 	// library specs
